@@ -29,6 +29,7 @@ class World:
         self.scripthash = {hx: sha256(hx).digest()[::-1].hex() for hx in self.hashXs}     # alias the client uses
         self.conf = {hx: [] for hx in self.hashXs}          # hashX -> [(tx_hash, height)]
         self.pool = {}                                      # tx_hash -> {'hx': set, 'parents': set}
+        self.blocks = []                                    # per block since start: {tx_hash: tx} (for reorgs)
         self.n = 0
 
     def new_hash(self):
@@ -83,11 +84,31 @@ class World:
             if all(p not in self.pool or p in take for p in self.pool[t]['parents']) and self.rnd.random() < 0.5:
                 take.add(t)
         touched = set()
+        self.blocks.append({})
         for t in take:
             tx = self.pool.pop(t)
+            self.blocks[-1][t] = tx
             for hx in tx['hx']:
                 self.conf[hx].append((t, self.height))
             touched |= tx['hx']
+        return touched, True
+
+    def step_reorg(self):
+        '''the last block is orphaned: its transactions are back in the mempool (the replacement blocks are empty), so
+        mempool children of theirs have unconfirmed inputs again although their own script hashes are not touched'''
+        if not self.blocks:
+            return set(), False
+        back = self.blocks.pop()
+        touched = set()
+        for t, tx in back.items():
+            self.pool[t] = tx
+            for hx in tx['hx']:
+                self.conf[hx] = [(u, h) for u, h in self.conf[hx] if u != t]
+            touched |= tx['hx']
+        # the winning branch is longer (the server only reorganises onto a longer chain): two empty blocks replace the one
+        self.blocks.append({})
+        self.blocks.append({})
+        self.height += 1
         return touched, True
 
 
@@ -144,15 +165,18 @@ async def run_one(seed):
             if rnd.random() < 0.3 and not se['s'].subscribe_headers:
                 se['s'].subscribe_headers = True
                 se['hdr'] = hsub()
-        kind = rnd.choice(['add', 'add', 'evict', 'block', 'block', 'height'])
+        kind = rnd.choice(['add', 'add', 'evict', 'block', 'block', 'height', 'reorg'])
         if kind == 'add':
             touched, hc = w.step_mempool_add()
         elif kind == 'evict':
             touched, hc = w.step_mempool_evict()
         elif kind == 'block':
             touched, hc = w.step_block()
+        elif kind == 'reorg':
+            touched, hc = w.step_reorg()
         else:
             w.height += 1
+            w.blocks.append({})
             touched, hc = set(), True
         steps.append((kind, len(touched), hc))
         for se in sessions:
